@@ -43,10 +43,10 @@ def generate(inv, T):
         w1 = H.Wrapper('w_rb_' + tag, T, 2 * n, T, 2 * n, rb)
         ws.append(w1)
         obs.append({'id': '%s<%s> array read-back' % (q, ct), 'kind': 'readback', 'w': w1.name, 'n': n, 'T': T})
-        meths = {m['name'] for m in c['members'] if m['kind'] == 'method'} | {m['name'] for m in inv.classes.get(c.get('basename', ''), {'members': []})['members'] if m['kind'] == 'method'}
+        # every quantity inherits SetValue / MutableValue from one of the Dimensional* / Dimensionless* bases (which the
+        # inventory does not list when they take two template parameters): generated for all of them; a wrapper that does not
+        # compile is reported as inconclusive by the harness
         for mut, code in (('SetValue', 'arr[0].SetValue(v);'), ('MutableValue', 'arr[0].MutableValue() = v;')):
-            if mut not in meths:
-                continue
             body = ('%s arr[2]; std::memcpy(static_cast<void*>(arr), in, sizeof arr < %d * sizeof(%s) ? sizeof arr : %d * sizeof(%s));\n' % (QT, 2 * n, ct, 2 * n, ct) +
                     '%s v; std::memcpy(static_cast<void*>(&v), in + %d, sizeof v < %d * sizeof(%s) ? sizeof v : %d * sizeof(%s));\n' % (vt, 2 * n, n, ct, n, ct) +
                     code + '\nstd::memcpy(out, static_cast<const void*>(arr), sizeof arr < %d * sizeof(%s) ? sizeof arr : %d * sizeof(%s));' % (2 * n, ct, 2 * n, ct))
